@@ -216,17 +216,21 @@ Lemma list_call_immediate_idempotent : forall c s u operator au s',
 Proof.
   intros c s u operator au s'. split; intros Hk.
   - split; intros He.
-    + assert (E : s' = allow_user s u /\ forall t, exec c t (AllowUser u operator, au) = Ok (allow_user t u)).
+    + assert (Hm : forall t, mgr (allow_user t u) = mgr t) by (intros t; unfold allow_user; destruct (allowed t u); reflexivity).
+      assert (E : s' = allow_user s u /\ exec c (allow_user s u) (AllowUser u operator, au) = Ok (allow_user (allow_user s u) u)).
       { unfold exec, exec_gen, exec_kind in *. cbn [fst snd] in *.
         destruct (knd c); try discriminate Hk; cbn [exec_allow_ex exec_allow_lib] in *.
-        - destruct (only_manager c au operator); cbn [bind] in *; [|discriminate]. split; [congruence|reflexivity].
+        - destruct (only_manager s au operator) eqn:EO; cbn [bind] in He; [|discriminate]. split; [congruence|].
+          unfold only_manager in *. rewrite Hm, EO. reflexivity.
         - split; [congruence|reflexivity]. }
       destruct E as [E1 E2]. subst s'. destruct (allow_user_spec s u) as (A1 & A2 & _).
       split; [reflexivity|]. split; [rewrite E2, A2; reflexivity|]. rewrite A1, N.eqb_refl. reflexivity.
-    + assert (E : s' = disallow_user s u /\ forall t, exec c t (DisallowUser u operator, au) = Ok (disallow_user t u)).
+    + assert (Hm : forall t, mgr (disallow_user t u) = mgr t) by (intros t; unfold disallow_user; destruct (allowed t u); reflexivity).
+      assert (E : s' = disallow_user s u /\ exec c (disallow_user s u) (DisallowUser u operator, au) = Ok (disallow_user (disallow_user s u) u)).
       { unfold exec, exec_gen, exec_kind in *. cbn [fst snd] in *.
         destruct (knd c); try discriminate Hk; cbn [exec_allow_ex exec_allow_lib] in *.
-        - destruct (only_manager c au operator); cbn [bind] in *; [|discriminate]. split; [congruence|reflexivity].
+        - destruct (only_manager s au operator) eqn:EO; cbn [bind] in He; [|discriminate]. split; [congruence|].
+          unfold only_manager in *. rewrite Hm, EO. reflexivity.
         - split; [congruence|reflexivity]. }
       destruct E as [E1 E2]. subst s'. destruct (disallow_user_spec s u) as (A1 & A2 & _).
       split; [reflexivity|]. split; [rewrite E2, A2; reflexivity|].
@@ -234,20 +238,24 @@ Proof.
       split; [exact Hf|]. intros cl s'' Hin Hx.
       rewrite (allow_sound c _ cl s'' Hk Hx u Hin) in Hf. discriminate.
   - split; intros He.
-    + assert (E : s' = block_user s u /\ forall t, exec c t (BlockUser u operator, au) = Ok (block_user t u)).
+    + assert (Hm : forall t, mgr (block_user t u) = mgr t) by (intros t; unfold block_user; destruct (blocked t u); reflexivity).
+      assert (E : s' = block_user s u /\ exec c (block_user s u) (BlockUser u operator, au) = Ok (block_user (block_user s u) u)).
       { unfold exec, exec_gen, exec_kind in *. cbn [fst snd] in *.
         destruct (knd c); try discriminate Hk; cbn [exec_block_ex exec_block_lib] in *.
-        - destruct (only_manager c au operator); cbn [bind] in *; [|discriminate]. split; [congruence|reflexivity].
+        - destruct (only_manager s au operator) eqn:EO; cbn [bind] in He; [|discriminate]. split; [congruence|].
+          unfold only_manager in *. rewrite Hm, EO. reflexivity.
         - split; [congruence|reflexivity]. }
       destruct E as [E1 E2]. subst s'. destruct (block_user_spec s u) as (A1 & A2 & _).
       split; [reflexivity|]. split; [rewrite E2, A2; reflexivity|].
       assert (Hf : blocked (block_user s u) u = true) by (rewrite A1, N.eqb_refl; reflexivity).
       split; [exact Hf|]. intros cl s'' Hin Hx.
       rewrite (block_sound c _ cl s'' Hk Hx u Hin) in Hf. discriminate.
-    + assert (E : s' = unblock_user s u /\ forall t, exec c t (UnblockUser u operator, au) = Ok (unblock_user t u)).
+    + assert (Hm : forall t, mgr (unblock_user t u) = mgr t) by (intros t; unfold unblock_user; destruct (blocked t u); reflexivity).
+      assert (E : s' = unblock_user s u /\ exec c (unblock_user s u) (UnblockUser u operator, au) = Ok (unblock_user (unblock_user s u) u)).
       { unfold exec, exec_gen, exec_kind in *. cbn [fst snd] in *.
         destruct (knd c); try discriminate Hk; cbn [exec_block_ex exec_block_lib] in *.
-        - destruct (only_manager c au operator); cbn [bind] in *; [|discriminate]. split; [congruence|reflexivity].
+        - destruct (only_manager s au operator) eqn:EO; cbn [bind] in He; [|discriminate]. split; [congruence|].
+          unfold only_manager in *. rewrite Hm, EO. reflexivity.
         - split; [congruence|reflexivity]. }
       destruct E as [E1 E2]. subst s'. destruct (unblock_user_spec s u) as (A1 & A2 & _).
       split; [reflexivity|]. split; [rewrite E2, A2; reflexivity|]. rewrite A1, N.eqb_refl. reflexivity.
@@ -413,7 +421,7 @@ Lemma migrate_once : forall c cs d operator au,
     has_auth au operator && N.eqb operator (owner c) && h_armed (fst hs).
 Proof.
   intros c cs d operator au Hk Hw. cbn zeta.
-  destruct (hist_run_inv c cs _ _ (init_inv c Hw) (init_rel c)) as [(R1 & R2 & R3 & R4) _].
+  destruct (hist_run_inv c cs _ _ (init_inv c Hw) (init_rel c)) as [(R1 & R2 & R3 & R4 & R5) _].
   unfold step, step_gen. fold (exec c (snd (hist_run c (hist0 c, init c) cs)) (Migrate d operator, au)).
   rewrite migrate_step by exact Hk. rewrite R4.
   destruct (has_auth au operator && N.eqb operator (owner c) && migrating (snd (hist_run c (hist0 c, init c) cs))); reflexivity.
